@@ -194,6 +194,59 @@ impl NumCase {
     }
 }
 
+/// bounds one ulp below / above a short decimal: their shortest text has 16-17 significant digits
+fn ulp_block(ctx: &mut Ctx, idx: &mut u64) {
+    let bases = ["2.47", "0.1", "-3.3", "100.01", "1.005", "-0.07", "12.5", "0.3", "7.77", "-9.16"];
+    let Ok(f) = factory_noslice(&crate::vocab::v1(false)) else { return };
+    for base in bases {
+        for dir in [-1i64, 1] {
+            for kw in ["minimum", "maximum", "exclusiveMinimum", "exclusiveMaximum"] {
+                *idx += 1;
+                if !ctx.mine(*idx) {
+                    continue;
+                }
+                let v: f64 = base.parse().unwrap();
+                let bits = v.to_bits() as i64;
+                // moving away from zero increases the bit pattern for either sign
+                let nb = f64::from_bits((bits + dir) as u64);
+                let bound = format!("{nb}");
+                if bound.len() < base.len() + 8 {
+                    continue;
+                }
+                let schema = format!("{{\"type\":\"number\",\"{kw}\":{bound}}}");
+                let g = GCase::json("c08_ulp", &schema);
+                let Ok(m0) = matcher(&f, &g) else { continue };
+                if m0.is_error() {
+                    continue;
+                }
+                ctx.rep.inc("schemas");
+                ctx.rep.inc("ulp_bound_schemas");
+                let (db, dl) = (Dec::parse(&bound).unwrap(), Dec::parse(base).unwrap());
+                for lit in [base.to_string(), bound.clone()] {
+                    let dv = Dec::parse(&lit).unwrap();
+                    let ord = dv.cmp(&db);
+                    let want = match kw {
+                        "minimum" => ord != std::cmp::Ordering::Less,
+                        "maximum" => ord != std::cmp::Ordering::Greater,
+                        "exclusiveMinimum" => ord == std::cmp::Ordering::Greater,
+                        _ => ord == std::cmp::Ordering::Less,
+                    };
+                    let got = accepts(&m0, &lit);
+                    ctx.rep.inc("literal_probes");
+                    if got != want {
+                        let _ = &dl;
+                        let d = json!({"schema": schema, "literal": lit, "expected_accept": want, "engine_accepts": got, "short_decimal": base, "bound_is_one_ulp": if dir < 0 { "towards zero" } else { "away from zero" }});
+                        let rp = ctx.replay(*idx);
+                        ctx.rep.violation("bound_needing_17_significant_digits_is_rounded", &["ulp_bound".to_string()], d, rp);
+                        break;
+                    }
+                }
+                ctx.rep.nontrivial(fnv(schema.as_bytes()));
+            }
+        }
+    }
+}
+
 fn accepts(m0: &Matcher, lit: &str) -> bool {
     let mut m = m0.clone();
     for &b in lit.as_bytes() {
@@ -590,6 +643,8 @@ pub fn run(ctx: &mut Ctx) {
             }
         }
     }
+    // Block D: bounds that need 16-17 significant digits (one ulp beside a short decimal)
+    ulp_block(ctx, &mut idx);
     ctx.rep.exhaustive = Some(complete);
     ctx.rep.add("max.window", w as u64);
 }
